@@ -214,32 +214,60 @@ theorem foldl_putTrial_sugOps (as : List Trial) (st : Study) :
   | nil => rfl
   | cons a as ih => rw [List.foldl_cons, ih]; rfl
 
-/-- **SuggestTrials** (any configuration, any algorithm outcome): existing trials evolve legally
+/-- a worker without an unfinished operation: a NEW operation record is created, then `suggestRest` -/
+theorem suggestBody_of_free (cfg : Cfg) (st : Study) (client : String) (count : Nat) (alg : AlgOutcome)
+    (h : (opsOf st client).find? (fun o => !o.done) = none) :
+    suggestBody cfg st client count alg =
+      suggestRest cfg { client := client, num := (opsOf st client).length + 1, done := false, result := .none }
+        { st with sugOps := st.sugOps ++
+            [{ client := client, num := (opsOf st client).length + 1, done := false, result := .none }] }
+        client count alg := by
+  unfold suggestBody
+  simp only [h]
+
+/-- a worker with an unfinished operation `o`, repaired service: `o` is RESUMED (no new record) -/
+theorem suggestBody_of_pending (cfg : Cfg) (hr : cfg.resumesAbandonedOp = true) (st : Study) (client : String)
+    (count : Nat) (alg : AlgOutcome) (o : SugOp) (h : (opsOf st client).find? (fun o => !o.done) = some o) :
+    suggestBody cfg st client count alg = suggestRest cfg { o with client := client } st client count alg := by
+  unfold suggestBody
+  simp only [h, hr, if_true]
+
+/-- the part of SuggestTrials after the operation record exists: existing trials evolve legally
     (REQUESTED → ACTIVE for the assigned ones, metadata for the others), new trials get fresh,
-    increasing ids. -/
+    increasing ids -/
+theorem suggestRest_ok (cfg : Cfg) (op0 : SugOp) (st : Study) (client : String) (count : Nat) (alg : AlgOutcome)
+    (hn : Nodup' st.trials) : TrialsOK st.trials (suggestRest cfg op0 st client count alg).2.trials := by
+  unfold suggestRest
+  simp only
+  split
+  · simpa using TrialsOK.refl hn
+  · have hA : MapOK st.trials
+        ((assignRequested client (count - (st.trials.filter fun t => t.state == .active && t.client == client).length)
+            (st.trials.filter (·.state == .requested))).foldl Study.putTrial st).trials := by
+      apply foldl_putTrial_mapOK hn
+      · intro a ha
+        obtain ⟨t, ht, rfl⟩ := assignRequested_spec _ _ _ a ha
+        have htm := List.mem_filter.mp ht
+        have hreq : t.state = .requested := by simpa using htm.2
+        refine ⟨t, htm.1, rfl, ?_⟩
+        rw [trialStepOK_iff]
+        exact ⟨by simp [hreq, legal], rfl, fun hc => by simp [hreq, TState.completed] at hc, fun hne => absurd hreq hne⟩
+      · exact MapOK.refl _
+    split
+    · simpa using hA.trialsOK hn
+    · exact pythiaStage_ok cfg _ _ _ _ alg hn hA
+
+/-- **SuggestTrials** (any configuration, any algorithm outcome, fresh or resumed operation): existing
+    trials evolve legally (REQUESTED → ACTIVE for the assigned ones, metadata for the others), new trials
+    get fresh, increasing ids. -/
 theorem suggestBody_ok (cfg : Cfg) (st : Study) (client : String) (count : Nat) (alg : AlgOutcome)
     (hn : Nodup' st.trials) : TrialsOK st.trials (suggestBody cfg st client count alg).2.trials := by
   unfold suggestBody
   simp only
   split
-  · exact TrialsOK.refl hn
   · split
-    · simpa using TrialsOK.refl hn
-    · have hA : MapOK st.trials
-          ((assignRequested client (count - (st.trials.filter fun t => t.state == .active && t.client == client).length)
-              (st.trials.filter (·.state == .requested))).foldl Study.putTrial
-            { st with sugOps := st.sugOps ++ [{ client := client, num := (opsOf st client).length + 1, done := false, result := .none }] }).trials := by
-        apply foldl_putTrial_mapOK hn
-        · intro a ha
-          obtain ⟨t, ht, rfl⟩ := assignRequested_spec _ _ _ a ha
-          have htm := List.mem_filter.mp ht
-          have hreq : t.state = .requested := by simpa using htm.2
-          refine ⟨t, htm.1, rfl, ?_⟩
-          rw [trialStepOK_iff]
-          exact ⟨by simp [hreq, legal], rfl, fun hc => by simp [hreq, TState.completed] at hc, fun hne => absurd hreq hne⟩
-        · exact MapOK.refl _
-      split
-      · simpa using hA.trialsOK hn
-      · exact pythiaStage_ok cfg _ _ _ _ alg hn hA
+    · exact suggestRest_ok cfg _ st client count alg hn
+    · exact TrialsOK.refl hn
+  · exact suggestRest_ok cfg _ { st with sugOps := st.sugOps ++ [_] } client count alg hn
 
 end VizierModel.Svc
